@@ -1,6 +1,6 @@
 """Build, sharded execution, merging, known-findings matching, evidence writing."""
 import concurrent.futures as cf
-import fcntl, hashlib, json, os, shutil, subprocess, sys, time
+import fcntl, hashlib, json, os, re, shutil, subprocess, sys, time
 
 VERIF = os.path.dirname(os.path.dirname(os.path.dirname(os.path.abspath(__file__))))
 REPO = os.environ.get('VERIF_REPO', '/repo')
@@ -143,7 +143,15 @@ class Merged:
     def add_results(self, results, what):
         for rc, summ, err in results:
             if summ is None:
-                self.inconclusive.append(f'{what}: harness process exited {rc}: {err[-400:]}')
+                # A panic that escaped every guard of the harness and whose LOCATION (printed by the harness's panic hook)
+                # lies in the code under test is an observation about that code: an operation panicked. Anything else
+                # that kills a harness process stays inconclusive.
+                m = re.search(r'/(rbx_[a-z_]+/src/[A-Za-z0-9_/]+\.rs):\d+(?: \[([A-Za-z0-9_:<>]+)\])?', err[-600:])
+                if rc == 101 and m:
+                    sig = f'{self.pid}:panic-killed-harness:{m.group(1)}' + (f':{m.group(2)}' if m.group(2) else '')
+                    self.add_violation(sig, f'{what}: a panic in the code under test ended the harness process: {err[-400:]}', {'what': what}, None, 1)
+                else:
+                    self.inconclusive.append(f'{what}: harness process exited {rc}: {err[-400:]}')
             else:
                 self.add_summary(summ)
 
